@@ -20,6 +20,7 @@ fn main() {
         "makediff-pairs" => makediff_pairs(&args[2..]),
         "linescan" => linescan(&args[2..]),
         "newline" => newline(&args[2..]),
+        "filelines" => filelines(&args[2..]),
         _ => {
             eprintln!("usage: rfv-unit <makediff|makediff-pairs> ...");
             std::process::exit(2);
@@ -511,6 +512,68 @@ fn newline(args: &[String]) {
             "{}",
             json!({"text": t.iter().map(|&i| syms[i]).collect::<Vec<_>>(), "win": abstr(&win),
                    "unix": abstr(&unix), "auto_out": abstr(&auto), "raw": abstr(raw)})
+        )
+        .unwrap();
+    }
+}
+
+
+// ---------------------------------------------------------------------------
+// C17: the FileLines range algebra, constructed both from ranges and from the
+// `--file-lines` JSON form.
+// ---------------------------------------------------------------------------
+fn filelines(args: &[String]) {
+    use rustfmt_nightly::{FileLines, FileName, Range};
+    let max_line: usize = args[0].parse().unwrap();
+    let max_ranges: usize = args[1].parse().unwrap();
+    let out = std::io::stdout();
+    let mut out = std::io::BufWriter::new(out.lock());
+    let mut all: Vec<(usize, usize)> = vec![];
+    for a in 0..=max_line {
+        for b in 0..=max_line {
+            all.push((a, b));
+        }
+    }
+    let mut sels: Vec<Vec<(usize, usize)>> = vec![vec![]];
+    let mut frontier: Vec<Vec<(usize, usize)>> = vec![vec![]];
+    for _ in 0..max_ranges {
+        let mut next = vec![];
+        for s in &frontier {
+            for r in &all {
+                let mut t = s.clone();
+                t.push(*r);
+                next.push(t);
+            }
+        }
+        sels.extend(next.iter().cloned());
+        frontier = next;
+    }
+    let name = FileName::Stdin;
+    for (n, sel) in sels.iter().enumerate() {
+        if sel.is_empty() {
+            continue;
+        }
+        let fl = if n % 2 == 0 {
+            let mut m = HashMap::new();
+            m.insert(name.clone(), sel.iter().map(|(a, b)| Range::new(*a, *b)).collect::<Vec<_>>());
+            FileLines::from_ranges(m)
+        } else {
+            let js = json!(sel.iter().map(|(a, b)| json!({"file": "stdin", "range": [a, b]})).collect::<Vec<_>>());
+            js.to_string().parse::<FileLines>().unwrap()
+        };
+        let norm = verif::file_lines_ranges(&fl, &name);
+        let mut q = vec![];
+        for lo in 0..=max_line {
+            for hi in lo..=max_line {
+                let (c, i, lines) = verif::file_lines_query(&fl, &name, lo, hi);
+                q.push(json!({"lo": lo, "hi": hi, "contains": c, "intersects": i, "lines": lines}));
+            }
+        }
+        writeln!(
+            out,
+            "{}",
+            json!({"kind": "algebra", "sel": sel.iter().map(|(a, b)| json!([a, b])).collect::<Vec<_>>(),
+                   "norm": norm.iter().map(|(a, b)| json!([a, b])).collect::<Vec<_>>(), "q": q})
         )
         .unwrap();
     }
